@@ -316,7 +316,7 @@ func zzDispatch(lk, rk int) {
 			zzAssert(err != nil, id+".zero_rejected")
 			break
 		}
-		if B := zzParam("floordiv_bits", 16, 40); B < 64 { // symbolic/symbolic 64-bit division is slow
+		if B := zzParam("floordiv_bits", 12, 32); B < 64 { // symbolic/symbolic 64-bit division is slow
 			lim := int64(1) << uint(B-1)
 			zzAssume(zzAnd(zzAnd(x.d >= -lim, x.d < lim), zzAnd(y.d >= -lim, y.d < lim)))
 		}
@@ -375,8 +375,7 @@ func zzMustTime(v starlark.Value, err error, id string) (sec, nsec int64) {
 // zzH19_algebra (H19.2): through the real starlark.Binary,
 // (t + d) - d == t, (t2 - t1) + t1 == t2, t + d == d + t, and the duration group
 // laws d1 + d2 - d2 == d1, d1 - d2 + d2 == d1 (which hold even when the
-// intermediate sum wraps). Times as in zzSymTime; d any int64 except the minimum
-// (whose negation is the known time_minus_dur finding); t2 = t1 + d0 with |d0| < 2^61 ns.
+// intermediate sum wraps). Times as in zzSymTime; |d| < 2^61 ns; t2 = t1 + d0 with |d0| < 2^61 ns.
 //
 //verif:unwind 40
 func zzH19_algebra_add_sub() { zzAlgebra(0) }
@@ -397,7 +396,7 @@ func zzAlgebra(law int) {
 		zzRelDivMode(2)
 		t, sec, nsec := zzSymTime("t")
 		d := zzI64("d")
-		zzAssume(d != math.MinInt64)
+		zzAssume(zzAnd(d > -zzWin, d < zzWin))
 		r1, err := starlark.Binary(syntax.PLUS, t, Duration(d))
 		zzAssert(err == nil, "C19.algebra.add_sub.ok1")
 		r2, err := starlark.Binary(syntax.MINUS, r1, Duration(d))
@@ -509,8 +508,10 @@ func zzH19_order() {
 	} else {
 		t1, s1, n1 := zzSymTime("t1")
 		t2, s2, n2 := zzSymTime("t2")
-		a := zzInZone(t1, zzChoice("z1", 3))
-		b := zzInZone(t2, zzChoice("z2", 3))
+		zones := [...][2]int{{0, 0}, {1, 2}, {2, 0}, {0, 1}}
+		z := zones[zzChoice("zones", len(zones))]
+		a := zzInZone(t1, z[0])
+		b := zzInZone(t2, z[1])
 		lt := zzOr(s1 < s2, zzAnd(s1 == s2, n1 < n2))
 		eq := zzAnd(s1 == s2, n1 == n2)
 		got, err := starlark.Compare(zzCmpOps[oi], a, b)
